@@ -163,7 +163,7 @@ func vfWinDecorate(r *vfRand, line string, kinds int, density int, st *vfNoiseSt
 					st.csi++
 				}
 			case 1:
-				if kinds&1 != 0 && !hasLF && !noDigitH {
+				if kinds&1 != 0 && (!hasLF || i == 0) && !noDigitH { // before the first letter nothing can be a re-print
 					out = append(out, vfCSIH(r)...)
 					hasDH = true
 					st.csiH++
@@ -171,7 +171,7 @@ func vfWinDecorate(r *vfRand, line string, kinds int, density int, st *vfNoiseSt
 			case 2:
 				if kinds&4 != 0 {
 					p := " \t\r\b\n"[r.Intn(5)]
-					if p == '\n' && hasDH {
+					if p == '\n' && hasDH && i > 0 {
 						p = ' '
 					}
 					if p == '\n' {
